@@ -60,6 +60,8 @@ def check(text, solvers=('z3-4.8', 'cvc5'), timeout=120, extra=None):
     """-> dict(verdict, per_solver=[{solver, answer, time_s}], model=text)"""
     per = []
     model = ''
+    if '(set-option :produce-models' not in text:
+        text = '(set-option :produce-models true)\n' + text
     for s in solvers:
         cmd, use_file = SOLVERS[s]
         cmd = list(cmd) + list((extra or {}).get(s, []))
